@@ -13,7 +13,7 @@ SPEC = {
     'outside': 'fluffiness finite and non-negative (LOWESS is a stub whose contract says "finite": not claimed); rounding '
                'inside the percentile interpolation (real-number semantics); the percentile clause is asserted when the '
                'selected hits have pairwise distinct times and the look-back keeps at least one hit',
-    'budget_s': {'quick': 900, 'thorough': 3000},
+    'budget_s': {'quick': 900, 'thorough': 3600},
 }
 
 
